@@ -541,3 +541,249 @@ Proof.
   - intros e He Hd. apply all_rows_add_in in Hd as [Hd|Hd]; [eapply In4; eauto|].
     apply (N1d e He). auto.
 Qed.
+
+
+(** * Every crash-free label preserves the invariant *)
+
+Lemma inv_store A s e : Inv A s -> ~ In (ek e) (map ek A) -> Inv (A ++ [e]) (store s e).
+Proof.
+  intros I Hk. unfold store. cbv zeta.
+  destruct (cap s <=? len _); unfold Inv, rotate; cbn [mem passives live dirs jobs alloc0].
+  - apply inv_rotate, inv_ins; assumption.
+  - apply inv_ins; assumption.
+Qed.
+
+Lemma inv_flush_cmd A s : Inv A s -> Inv A (flush_cmd s).
+Proof. intros I. unfold flush_cmd, rotate, Inv. cbn [mem passives live dirs jobs alloc0]. apply inv_rotate, I. Qed.
+
+Lemma inv_wal_write A s : Inv A s -> Inv A (wal_write s).
+Proof. intros I. unfold wal_write. destruct (walq s); exact I. Qed.
+
+Lemma inv_wal_rotate A s : Inv A s -> Inv A (wal_rotate s).
+Proof. intros I. unfold wal_rotate. destruct (cap s <=? wcnt s); exact I. Qed.
+
+Lemma is_empty_true {T} (l : list T) : is_empty l = true -> l = [].
+Proof. destruct l; [reflexivity | discriminate]. Qed.
+
+Ltac stage_side :=
+  cbn [has_passive written published];
+  solve [ intros; discriminate | intros _; reflexivity | intros _; left; reflexivity | auto ].
+
+Lemma inv_fw A s l : Inv A s -> Inv A (fw_step s l).
+Proof.
+  intros I. unfold fw_step. destruct (jobs s) as [|j rest] eqn:Hj; [exact I|].
+  assert (I' : InvC A (mem s) (passives s) (live s) (dirs s) (j :: rest) (alloc0 s)) by (rewrite <- Hj; exact I).
+  pose proof (i_job _ _ _ _ _ _ _ I' j (or_introl eq_refl)) as Jok.
+  destruct l; destruct (jstage j) eqn:Hst; try exact I.
+  - (* FwBegin *)
+    unfold Inv; cbn [mem passives live dirs jobs alloc0].
+    apply inv_adv; [exact I'|]. apply jobok_stage; [exact Jok|..]; rewrite Hst; stage_side.
+  - (* FwMkdir *)
+    unfold Inv; cbn [mem passives live dirs jobs alloc0].
+    apply inv_add_rows; [exact I' | exact Hst | intros e [] | constructor | intros e [] | intros e e' _ []].
+  - (* FwWrite *)
+    destruct (negb (memb u (uids_of (jevs j))) || dir_has_uid s (jseg j) u) eqn:Hc; [exact I|].
+    apply orb_false_iff in Hc as [_ Hc].
+    unfold Inv; cbn [mem passives live dirs jobs alloc0].
+    apply inv_add_rows; [exact I' | exact Hst |..].
+    + intros e He. apply filter_In in He as [He _]. apply flush_order_in, He.
+    + apply NoDup_filter. eapply Permutation_NoDup; [symmetry; apply flush_order_perm|].
+      destruct Jok as [Jp _ _ _ _]. rewrite Hst in Jp. specialize (Jp eq_refl).
+      pose proof (i_n1 _ _ _ _ _ _ _ I') as Hn. apply nodup_app in Hn as (_ & Hn & _).
+      eapply prows_nodup_in; eauto.
+    + intros e He Hr. apply filter_In in He as [_ Hu]. apply N.eqb_eq in Hu.
+      assert (Hd : dir_has_uid s (jseg j) u = true) by (apply dir_has_uid_spec; exists e; auto).
+      congruence.
+    + intros e e' He He' Hu. apply filter_In in He' as [_ Hu']. apply N.eqb_eq in Hu'.
+      apply filter_In. split; [apply flush_order_in, He | apply N.eqb_eq; congruence].
+  - (* FwIndex *)
+    destruct (is_empty (jevs j) || negb (forallb (dir_has_uid s (jseg j)) (uids_of (jevs j)))) eqn:Hc; [exact I|].
+    apply orb_false_iff in Hc as [_ Hc]. apply negb_false_iff in Hc.
+    unfold Inv; cbn [mem passives live dirs jobs alloc0].
+    apply inv_adv; [exact I'|]. apply jobok_stage; [exact Jok|..]; rewrite Hst; try stage_side.
+    intros _. right. intros e He.
+    pose proof (uids_of_in e _ He) as Hm. apply memb_true in Hm.
+    rewrite forallb_forall in Hc. apply Hc in Hm. apply dir_has_uid_spec in Hm as (e' & He' & Hu).
+    destruct Jok as [_ _ _ Jw _]. rewrite Hst in Jw. eapply Jw; eauto.
+  - (* FwPublish *)
+    destruct (is_empty (jevs j)) eqn:He.
+    + unfold set_jobs, Inv; cbn [mem passives live dirs jobs alloc0].
+      apply inv_adv; [exact I'|]. apply jobok_stage; [exact Jok|..]; rewrite Hst; try stage_side.
+      intros _. right. intros Hne. apply is_empty_true in He. contradiction.
+    + unfold Inv; cbn [mem passives live dirs jobs alloc0].
+      set (lv' := if memb (jseg j) (live s) then live s else live s ++ [jseg j]).
+      assert (Hmono : forall x, memb x (live s) = true -> memb x lv' = true).
+      { intros x Hx. unfold lv'. destruct (memb (jseg j) (live s)); [exact Hx|]. rewrite memb_app, Hx. reflexivity. }
+      assert (Hin : memb (jseg j) lv' = true).
+      { unfold lv'. destruct (memb (jseg j) (live s)) eqn:Hm; [exact Hm|].
+        rewrite memb_app, memb_cons, N.eqb_refl. apply orb_true_r. }
+      pose proof (inv_live _ _ _ _ _ _ _ _ I' Hmono) as I2.
+      apply inv_adv; [exact I2|].
+      apply jobok_stage; [exact (i_job _ _ _ _ _ _ _ I2 j (or_introl eq_refl))|..]; rewrite Hst; stage_side.
+  - (* FwClear *)
+    assert (I2 : InvC A (mem s) (passives s) (live s) (dirs s) (mkJob (jseg j) (jevs j) StCleared :: rest) (alloc0 s)).
+    { apply inv_adv; [exact I'|]. apply jobok_stage; [exact Jok|..]; rewrite Hst; stage_side. }
+    destruct (is_empty (jevs j)).
+    + exact I2.
+    + exact (inv_clear _ _ _ _ _ _ _ _ I2 eq_refl).
+  - (* FwWalDel *)
+    destruct (is_empty (jevs j) || negb (id <? N.succ (jseg j))); [exact I | exact I'].
+  - (* FwWalClean *)
+    assert (I2 : InvC A (mem s) (passives s) (live s) (dirs s) (mkJob (jseg j) (jevs j) StWalCleaned :: rest) (alloc0 s)).
+    { apply inv_adv; [exact I'|]. apply jobok_stage; [exact Jok|..]; rewrite Hst; stage_side. }
+    destruct (is_empty (jevs j)); exact I2.
+  - (* FwDone, nothing was flushed *)
+    destruct (is_empty (jevs j)) eqn:He; [|exact I].
+    unfold Inv; cbn [mem passives live dirs jobs alloc0].
+    eapply inv_done; [exact I'|]. intros Hne. apply is_empty_true in He. contradiction.
+  - (* FwDone *)
+    unfold Inv; cbn [mem passives live dirs jobs alloc0].
+    eapply inv_done; [exact I'|]. rewrite Hst. intros _. split; reflexivity.
+Qed.
+
+(** * Crash-free histories *)
+
+Definition is_crash (l : label) : bool := match l with LCrash | LRestart => true | _ => false end.
+Definition no_crash (ls : list label) : Prop := forallb (fun l => negb (is_crash l)) ls = true.
+
+(** the events of the STORE labels, in order *)
+Fixpoint applied (ls : list label) : list event :=
+  match ls with
+  | [] => []
+  | LStore e :: r => e :: applied r
+  | _ :: r => applied r
+  end.
+
+Lemma applied_app a b : applied (a ++ b) = applied a ++ applied b.
+Proof.
+  induction a as [|l a IH]; cbn [app applied]; [reflexivity|].
+  destruct l; rewrite IH; reflexivity.
+Qed.
+
+Lemma run_snoc s ls l : run s (ls ++ [l]) = step (run s ls) l.
+Proof. unfold run. rewrite fold_left_app. reflexivity. Qed.
+
+Lemma inv_run c ls :
+  no_crash ls -> NoDup (map ek (applied ls)) -> Inv (applied ls) (run (init c) ls).
+Proof.
+  unfold no_crash. induction ls as [|l ls IH] using rev_ind; intros Hc Hk.
+  - apply inv_init.
+  - rewrite forallb_app in Hc. apply andb_true_iff in Hc as [Hc Hl]. cbn [forallb] in Hl.
+    rewrite run_snoc. rewrite applied_app in *.
+    destruct l; cbn [is_crash negb andb] in Hl; try discriminate; cbn [applied step] in *;
+      rewrite ?app_nil_r in *.
+    + rewrite map_app in Hk. apply nodup_app in Hk as (Hk1 & _ & Hk3).
+      apply inv_store; [apply IH; assumption|]. intros Hin. apply (Hk3 _ Hin). left. reflexivity.
+    + apply inv_flush_cmd, IH; assumption.
+    + apply inv_wal_write, IH; assumption.
+    + apply inv_wal_rotate, IH; assumption.
+    + apply inv_fw, IH; assumption.
+Qed.
+
+(** * What a read sees *)
+
+Lemma inv_rows A s : Inv A s -> forall e, In e (mem_rows s ++ seg_rows s) <-> In e A.
+Proof.
+  intros I e. dI I. split.
+  - intros H. apply in_app_iff in H as [H|H].
+    + unfold mem_rows in H. apply in_app_iff in H as [H|H]; auto.
+    + apply Idir, seg_rows_sub_all, H.
+  - intros H. apply in_app_iff. destruct (Icov e H) as [Hm|[(j & Hj & He)|(seg & Hs & He)]].
+    + left. apply in_app_iff. left. exact Hm.
+    + destruct (Ijob j Hj) as [Jp Jwr Jpub _ _].
+      destruct (has_passive (jstage j)) eqn:Hp.
+      * left. apply in_app_iff. right. eapply prows_in; eauto.
+      * right. assert (Hne : jevs j <> []) by (intros E; rewrite E in He; destruct He).
+        apply (rows_of_scanned s (jseg j)).
+        -- apply Jpub; [destruct (jstage j); try discriminate; reflexivity | exact Hne].
+        -- apply Jwr; [destruct (jstage j); try discriminate; reflexivity | exact He].
+    + right. eapply rows_of_scanned; eauto.
+Qed.
+
+Lemma inv_nodup_rows A s :
+  Inv A s -> NoDup (mem_rows s) /\ NoDup (seg_rows s).
+Proof.
+  intros I. dI I. split; [exact In1|]. apply nodup_concat_filter, In2.
+Qed.
+
+(** ** C03, selections *)
+
+Theorem select_exact : forall c ls u,
+  no_crash ls -> NoDup (map ek (applied ls)) ->
+  Permutation (select (run (init c) ls) u) (of_uid u (applied ls)).
+Proof.
+  intros c ls u Hc Hk. pose proof (inv_run c ls Hc Hk) as I.
+  set (s := run (init c) ls) in *. pose proof (inv_rows _ _ I) as Hrows.
+  apply NoDup_Permutation.
+  - apply (NoDup_map_inv ek). apply dedup_keys.
+  - apply NoDup_filter. apply (NoDup_map_inv ek). exact Hk.
+  - intros e. unfold select, scan, of_uid. split.
+    + intros He. apply dedup_keys in He as [_ He]. apply filter_In in He as [He Hu].
+      apply filter_In. split; [apply Hrows, He | exact Hu].
+    + intros He. apply filter_In in He as [He Hu]. apply dedup_in; [|apply filter_In; split; [apply Hrows, He | exact Hu]|reflexivity].
+      intros a b Ha Hb. apply filter_In in Ha as [Ha _], Hb as [Hb _].
+      apply (nodup_map_inj_on ek (applied ls) Hk); apply Hrows; assumption.
+Qed.
+
+Theorem read_your_writes : forall c ls e,
+  no_crash ls -> NoDup (map ek (applied ls)) ->
+  In e (applied ls) -> In e (select (run (init c) ls) (euid e)).
+Proof.
+  intros c ls e Hc Hk He. eapply Permutation_in; [symmetry; apply select_exact; assumption|].
+  apply filter_In. split; [exact He | apply N.eqb_refl].
+Qed.
+
+(** ** Known classes *)
+
+(** a read for type [u] while some in-flight segment has no files for [u] *)
+Definition ReadDuringFlushDropsSegmentFlow (s : shard) (u : N) : bool := fragile s u.
+(** memory holds a row of another type *)
+Definition CountIgnoresTypeInMemory (s : shard) (u : N) : bool :=
+  negb (forallb (fun e => euid e =? u) (mem_rows s)).
+(** some row is both in memory (a passive copy) and in a scanned segment *)
+Definition CountDuringFlush (s : shard) : bool :=
+  existsb (fun e => existsb (ev_eqb e) (seg_rows s)) (mem_rows s).
+
+Lemma CountDuringFlush_false s :
+  CountDuringFlush s = false <-> forall e, In e (mem_rows s) -> ~ In e (seg_rows s).
+Proof.
+  unfold CountDuringFlush. split.
+  - intros H e Hm Hs. assert (T : existsb (fun e => existsb (ev_eqb e) (seg_rows s)) (mem_rows s) = true); [|congruence].
+    apply existsb_exists. exists e. split; [exact Hm|]. apply existsb_exists. exists e. split; [exact Hs | apply ev_eqb_eq; reflexivity].
+  - intros H. destruct (existsb _ (mem_rows s)) eqn:E; [|reflexivity]. exfalso.
+    apply existsb_exists in E as (e & Hm & E). apply existsb_exists in E as (e' & Hs & E).
+    apply ev_eqb_eq in E. subst e'. exact (H e Hm Hs).
+Qed.
+
+Theorem outcomes_exact_outside_known : forall c ls u,
+  no_crash ls -> NoDup (map ek (applied ls)) ->
+  let s := run (init c) ls in
+  ReadDuringFlushDropsSegmentFlow s u = false ->
+  select_outcomes s u = [select s u] /\
+  forall r, In r (select_outcomes s u) -> Permutation r (of_uid u (applied ls)).
+Proof.
+  intros c ls u Hc Hk s Hf. unfold ReadDuringFlushDropsSegmentFlow in Hf.
+  unfold select_outcomes. rewrite Hf. split; [reflexivity|].
+  intros r [<-|[]]. apply select_exact; assumption.
+Qed.
+
+Theorem count_exact_outside_known : forall c ls u,
+  no_crash ls -> NoDup (map ek (applied ls)) ->
+  let s := run (init c) ls in
+  CountIgnoresTypeInMemory s u = false -> CountDuringFlush s = false ->
+  count s u = len (select s u).
+Proof.
+  intros c ls u Hc Hk s H1 H2. pose proof (inv_run c ls Hc Hk) as I. fold s in I.
+  pose proof (inv_rows _ _ I) as Hrows. destruct (inv_nodup_rows _ _ I) as [Nm Ns].
+  unfold CountIgnoresTypeInMemory in H1. apply negb_false_iff in H1.
+  rewrite CountDuringFlush_false in H2.
+  assert (Hscan : scan s u = mem_rows s ++ of_uid u (seg_rows s)).
+  { unfold scan, of_uid. rewrite filter_app, (filter_all _ _ H1). reflexivity. }
+  assert (Hsel : select s u = scan s u).
+  { unfold select. apply dedup_id; [|reflexivity]. apply nodup_map_inj.
+    - rewrite Hscan. apply nodup_app. split; [exact Nm|]. split; [apply NoDup_filter, Ns|].
+      intros x Hx Hx2. apply filter_In in Hx2 as [Hx2 _]. exact (H2 x Hx Hx2).
+    - intros a b Ha Hb. unfold scan, of_uid in Ha, Hb. apply filter_In in Ha as [Ha _], Hb as [Hb _].
+      apply (nodup_map_inj_on ek (applied ls) Hk); apply Hrows; assumption. }
+  rewrite Hsel, Hscan, len_app. reflexivity.
+Qed.
